@@ -310,7 +310,17 @@ def run(ctx):
                                 and es.lstrip('&') in [x.get('name') for x, _ in find_nodes(p.get('pat') or {}, lambda y: y.get('k') == 'pident')]:
                             it = p
                     if it is None and argname not in es:
-                        evals.append((None, n['line'], bp, 'foreign:' + es))
+                        # a local bound to one of several argument references: `let sel = match c { true => &args[1], .. }`
+                        name0 = es.lstrip('&')
+                        sel = []
+                        for lt, _lp in find_nodes(cl['body'], lambda y: y.get('k') == 'let' and y['pat'].get('k') == 'pident' and y['pat'].get('name') == name0 and y.get('init') is not None):
+                            for x, _ in find_nodes(lt['init'], lambda y: y.get('k') == 'index' and natives.strip(y['base']).get('path') == argname and y['index'].get('k') == 'lit'):
+                                sel.append(int(x['index']['value']))
+                        if sel:
+                            for i2, k2 in enumerate(sel):
+                                evals.append((k2, n['line'], bp + [(('sel', name0), 'sel%d' % i2)], 'selected'))
+                        else:
+                            evals.append((None, n['line'], bp, 'foreign:' + es))
         # duplicates / order on compatible paths
         for i, a in enumerate(evals):
             for b in evals[i + 1:]:
